@@ -21,6 +21,8 @@ def check(run):
     run.guard(GR.right_loc, funcs, 'C06')
     run.guard(GR.build_loop, funcs, 'C06')
     run.guard(GR.build_loop_multi, funcs, 'C06')
+    from . import C03
+    run.guard(C03.pair_obligations, funcs, 'C06')    # every periodic (shifted) plane yields its own face, whatever the mask: faces through the wrap come in reciprocal pairs
     run.assume('f64 read as exact reals; whole-pipeline consequences (replicated tessellation, no wall faces on periodic axes) outside')
     return run.finish(LEVEL, EXPLANATION, trusted=['rustc -Zunpretty=mir', 'z3 5.1.0 / 4.8.12, cvc5 1.0.3', 'glam / std models of mirsym'])
 
@@ -29,4 +31,7 @@ def replay(path):
     d = json.load(open(path))
     if d['kind'] == 'nn_images':
         return nnrules.replay(d)
+    if d['kind'] == 'face_rule_pair':
+        from . import C03
+        return C03.replay(path)
     return GR.replay(d)
